@@ -33,6 +33,15 @@ type c14Case struct {
 	TLSVer int    `json:"tlsver,omitempty"` // 0 none, 12, 13
 	Twice  bool   `json:"twice,omitempty"`  // two exchanges with one Auth object (nonce freshness)
 	Redial bool   `json:"redial,omitempty"` // through mail.Client: dial, close, dial again on the SAME Client (two connections)
+	// Rounds: history — one Auth object used for len(Rounds) exchanges in a row, each against a server with its
+	// own parameters (overriding the ones above)
+	Rounds []c14Round `json:"rounds,omitempty"`
+}
+
+type c14Round struct {
+	Salt  []byte `json:"salt"`
+	Iter  int    `json:"iter"`
+	SPass string `json:"spass"` // what the server expects in this round
 }
 
 var c14Mechs = []string{"PLAIN", "LOGIN", "CRAM-MD5", "XOAUTH2", "SCRAM-SHA-1", "SCRAM-SHA-256"}
@@ -123,7 +132,7 @@ func c14Server(k c14Case, conn *refsmtp.Conn, trace *sasl.Trace) func(s *refsmtp
 func c14Exec(r *vf.Run, k c14Case) []finding {
 	var out []finding
 	add := func(key, f string, a ...interface{}) { out = append(out, finding{key, fmt.Sprintf(f, a...)}) }
-	right := k.User == k.SUser && k.Pass == k.SPass
+	k0 := k
 	adm := c14Admissible(strings.TrimSuffix(k.Mech, "-PLUS"), k.User, k.Pass)
 	mechs := "PLAIN LOGIN CRAM-MD5 XOAUTH2 SCRAM-SHA-1 SCRAM-SHA-256 SCRAM-SHA-1-PLUS SCRAM-SHA-256-PLUS"
 	var nonces []string
@@ -137,7 +146,14 @@ func c14Exec(r *vf.Run, k c14Case) []finding {
 	if k.Redial {
 		rounds = 2
 	}
+	if len(k0.Rounds) > 0 {
+		rounds = len(k0.Rounds)
+	}
 	for round := 0; round < rounds; round++ {
+		if len(k0.Rounds) > 0 {
+			k.Salt, k.Iter, k.SPass = k0.Rounds[round].Salt, k0.Rounds[round].Iter, k0.Rounds[round].SPass
+		}
+		right := k.User == k.SUser && k.Pass == k.SPass
 		caps := []string{"AUTH " + mechs}
 		if k.TLSVer != 0 {
 			caps = append(caps, "STARTTLS")
@@ -195,7 +211,7 @@ func c14Exec(r *vf.Run, k c14Case) []finding {
 					r.HarnessError("C14 smtp.NewClient: %v", err)
 					return
 				}
-				if sharedAuth == nil || !k.Twice {
+				if sharedAuth == nil || !(k.Twice || len(k0.Rounds) > 0) {
 					sharedAuth = c14Auth(k, nil)
 				}
 				authErr = cl.Auth(sharedAuth)
@@ -229,6 +245,9 @@ func c14Exec(r *vf.Run, k c14Case) []finding {
 			reason := trace.Reason
 			if reason == "" && authErr != nil {
 				reason = "client error: " + authErr.Error()
+			}
+			if len(k0.Rounds) > 0 {
+				cls += fmt.Sprintf("/exchange-%d-of-one-auth-object", round+1)
 			}
 			add(fmt.Sprintf("right-credentials-rejected/%s/%s", k.Mech, cls), "%s with the right credentials (user %q) was not accepted by the reference verifier: %s", k.Mech, k.User, clipS(reason, 200))
 		case !right && (ok || trace.Accepted):
@@ -295,7 +314,7 @@ func init() {
 	vf.Register(&vf.Check{
 		ID: "C14", Title: "SASL mechanisms interoperate with conforming servers",
 		Run: func(r *vf.Run) {
-			r.SetRule("user names and passwords/tokens: ALL strings of length 0..2 (thorough 0..3 for users) over {a B = , SP é 日 \\x01} plus a 300-byte value, as (user, password) pairs with the right and with two kinds of wrong server-side credentials, for PLAIN, LOGIN, CRAM-MD5 (× challenge strings), XOAUTH2, SCRAM-SHA-1, SCRAM-SHA-256; SCRAM parameter sweeps (pseudo-random salts of length 1..20 and 64, all salts of length 1..3 over {00 01 '=' ff} and 16-byte salts framed by / made of those bytes, iteration counts {1,2,3,4,4095,4096,4097,10000,20000} (thorough: every i<=512 and every 97th up to 20000), server nonce suffixes incl. '=' and 24 printable chars); SCRAM-SHA-1/256-PLUS over real TLS 1.2 (tls-unique) and TLS 1.3 (tls-exporter) handshakes; two exchanges on one Auth object (nonce freshness); all mechanisms through mail.Client over real TLS 1.2/1.3 with a re-dial on the same Client (two connections, fresh channel binding each); the verdict of reference verifiers written from the RFCs (self-tested on RFC 5802/7677/2195/4616/6070 vectors) must be 'accepted' exactly when credentials are equal; distinct by case tuple")
+			r.SetRule("user names and passwords/tokens: ALL strings of length 0..2 (thorough 0..3 for users) over {a B = , SP é 日 \\x01} plus a 300-byte value, as (user, password) pairs with the right and with two kinds of wrong server-side credentials, for PLAIN, LOGIN, CRAM-MD5 (× challenge strings), XOAUTH2, SCRAM-SHA-1, SCRAM-SHA-256; SCRAM parameter sweeps (pseudo-random salts of length 1..20 and 64, all salts of length 1..3 over {00 01 '=' ff} and 16-byte salts framed by / made of those bytes, iteration counts {1,2,3,4,4095,4096,4097,10000,20000} (thorough: every i<=512 and every 97th up to 20000), server nonce suffixes incl. '=' and 24 printable chars); SCRAM-SHA-1/256-PLUS over real TLS 1.2 (tls-unique) and TLS 1.3 (tls-exporter) handshakes; two exchanges on one Auth object (nonce freshness); histories of 2 (thorough 3) exchanges with one Auth object, every combination of per-exchange server parameters over {2 salts} × {i=16,17,1,4096} × {server expects the right / another password}; all mechanisms through mail.Client over real TLS 1.2/1.3 with a re-dial on the same Client (two connections, fresh channel binding each); the verdict of reference verifiers written from the RFCs (self-tested on RFC 5802/7677/2195/4616/6070 vectors) must be 'accepted' exactly when credentials are equal; distinct by case tuple")
 			r.Assume("admissible credentials per mechanism: PLAIN non-empty without NUL; XOAUTH2 without ^A; SCRAM non-empty without control characters (SASLprep/PRECIS prohibit them); Unicode restricted to strings on which SASLprep and PRECIS OpaqueString agree",
 				"an empty server nonce suffix is not exercised (the property is silent)")
 			alpha := []string{"a", "B", "=", ",", " ", "é", "日", "\x01"}
@@ -375,6 +394,32 @@ func init() {
 				}
 				cases = append(cases, c14Case{Mech: mech, User: "user", Pass: "pencil", SUser: "user", SPass: "pencil", Twice: true})
 				cases = append(cases, c14Case{Mech: mech, User: "us,er", Pass: "pen=cil", SUser: "us,er", SPass: "pen=cil", Twice: true})
+			}
+			// histories: one Auth object through 2 (thorough: 3) exchanges, every combination of per-exchange server
+			// parameters over {salt A, salt B} × {i=16, 17, 1, 4096} × {server expects the right / another password}
+			{
+				salts := [][]byte{[]byte("salt-AAAA-0123456"), []byte("salt-BBBB-6543210")}
+				its := []int{16, 17, 1, 4096}
+				var alts []c14Round
+				for _, sa := range salts {
+					for _, it := range its {
+						for _, sp := range []string{"pencil", "other"} {
+							alts = append(alts, c14Round{Salt: sa, Iter: it, SPass: sp})
+						}
+					}
+				}
+				for _, mech := range []string{"SCRAM-SHA-1", "SCRAM-SHA-256"} {
+					for _, a := range alts {
+						for _, b := range alts {
+							cases = append(cases, c14Case{Mech: mech, User: "user", Pass: "pencil", SUser: "user", SPass: "pencil", Rounds: []c14Round{a, b}})
+							if r.Thorough {
+								for _, c := range alts {
+									cases = append(cases, c14Case{Mech: mech, User: "user", Pass: "pencil", SUser: "user", SPass: "pencil", Rounds: []c14Round{a, b, c}})
+								}
+							}
+						}
+					}
+				}
 			}
 			plusCreds := [][2]string{{"user", "pencil"}, {"us,er=x", "p=,w d"}, {"é日", "pä ss"}, {"a", "b"}, {"user", "wrong"}}
 			for _, mech := range []string{"SCRAM-SHA-1-PLUS", "SCRAM-SHA-256-PLUS"} {
